@@ -41,6 +41,7 @@ def run(ck, tier):
     ck.rule("R-C12-tile", "the end of the input is not special: the plain-English front end never takes a token out again after laying the tokens end to end, so a paragraph at the end of the text has the same tokens as the same paragraph followed by more text (rule instance of R-C02-tile)")
     ck.rule("R-C12-stale", "a condensation in one paragraph must not shift the token indices used for a condensation in a later one: indices collected before an earlier removal are re-based by exactly the tokens it removes (rule instances of R-C02-stale)")
     ck.rule("R-C12-lexlocal", "token boundaries are decided from the front: no function in lex_token's table (nor a helper that receives the uncut remaining input) scans that input from its end (rev / rposition / rfind / last / ends_with / next_back ...); otherwise text arbitrarily far behind a token - in a later paragraph - changes how it is lexed")
+    ck.rule("R-C12-carry", "a hand-written rule that walks the document unit by unit (iter_sentences / iter_paragraphs / iter_chunks) carries nothing from one unit to the next except its result vector: a local that is set in one iteration and decides something in the next makes a paragraph's lints depend on the paragraphs before it (and treats the first unit of the document differently from the first unit of every later paragraph)")
     ck.not_decided += ["whether each of the 24 hand-written rule structs ignores everything beyond a paragraph break (they read neighbouring tokens by index)", "document-level passes other than the condensing ones", "quote pairing (excluded by the property's premise)"]
     p = facts.load()
     byk = fns_by_key(p)
@@ -124,6 +125,7 @@ def run(ck, tier):
         ck.floor(rule, "pattern calls in run_on_chunk", n, 2)
     match_to_lint_locality(ck, p, rule)
     _lexlocal(ck, p, byk)
+    _carry(ck, p)
     # shared rule instances
     c05._key(c05._Sub(_only(ck, ("chunk-cache:rebase", "chunk-cache:get:chars", "chunk-cache:put:chars")), "R-C12-rebase", ""), p, byk)
     c02._condense(c05._Sub(ck, "R-C12-condense", ""), p, byk)
@@ -266,3 +268,134 @@ def _lexlocal(ck, p, byk):
             ck.proved(rule, key, g.span, "no scan from the end of the uncut input (parameters holding it: %s)" % sorted(unb))
     ck.extra["lexlocal_functions"] = len(done)
     ck.extra["lexlocal_backscans_seen"] = n_scans
+
+
+# ---------------------------------------------------------------------------------------------------
+UNIT_ITERS = {"iter_sentences", "iter_paragraphs", "iter_chunks"}
+
+
+def _carry(ck, p):
+    rule = "R-C12-carry"
+    impls = [f for f in p.impls_of_method("harper_core::linting::Linter::lint") if f.name.startswith("harper_core::")]
+    n_loops = 0
+    for f in sorted(impls, key=lambda f: f.name):
+        cfg = Cfg(f)
+        pv = Prov(f)
+        accepted = []
+        for h, body in sorted(cfg.natural_loops().items(), key=lambda x: -len(x[1])):
+            if any(body < a for a in accepted):
+                continue                # a loop inside a unit loop starts afresh for every unit
+            unit = None
+            for b in body:
+                t = f.blocks[b]["t"]
+                if t["k"] == "call" and method(t) == "next" and t["args"]:
+                    # the iterator advanced here is (an adaptor chain over) the document's unit iterator, made outside the loop
+                    for o in arg_roots(f, pv, t["args"][0]):
+                        if o[0] == "call" and o[1] not in body and method(f.blocks[o[1]]["t"]) in UNIT_ITERS:
+                            unit = method(f.blocks[o[1]]["t"])
+            if unit is None:
+                continue
+            n_loops += 1
+            accepted.append(body)
+            ck.saw(f)
+            key = "%s:%s" % (keyname(p, f), unit)
+            if sum(1 for a in accepted) > 1:
+                key += ":%d" % len(accepted)
+            ins, outs, mutb = set(), set(), set()
+            for bi, b in enumerate(f.blocks):
+                if b["cleanup"]:
+                    continue
+                for sx in b["s"]:
+                    if sx["k"] != "assign":
+                        continue
+                    (ins if bi in body else outs).add(sx["lhs"][0])
+                    if bi in body and sx["rv"]["k"] == "ref" and sx["rv"].get("mut"):
+                        mutb.add(sx["rv"]["place"][0])
+                t = b["t"]
+                if t["k"] == "call" and t.get("dest"):
+                    (ins if bi in body else outs).add(t["dest"][0])
+            names = f.debug_names()
+            carried = []
+            for l in sorted((ins & outs) | (mutb & outs)):
+                if l not in names:
+                    continue
+                ty = f.local_tystr(l)
+                if re.search(r"Vec<(harper_core::)?(linting::)?(lint::)?Lint>$", ty):
+                    continue            # the result vector
+                if re.search(r"(^|::)(iter|slice|itertools|option|vec)::|Iter|Peekable|Chain|Map<|Filter<|Zip<|TupleWindows|Enumerate", ty) and names[l] == "iter":
+                    continue            # the loop's own iterator (for-loop desugaring names it `iter`)
+                if not _live_in(f, h, body, l):
+                    continue            # set afresh in every iteration before it is read
+                carried.append((l, names[l], ty))
+            if not carried:
+                ck.proved(rule, key, f.span, "the loop over %s() carries only its iterator and the result vector from one unit to the next" % unit)
+                continue
+            # does a carried local decide something: taint forward inside the body
+            taint = {l for l, _, _ in carried}
+            changed = True
+            while changed:
+                changed = False
+                for bi in body:
+                    b = f.blocks[bi]
+                    for sx in b["s"]:
+                        if sx["k"] == "assign" and sx["lhs"][0] not in taint and _mentions(sx["rv"], taint):
+                            taint.add(sx["lhs"][0])
+                            changed = True
+                    t = b["t"]
+                    if t["k"] == "call" and t.get("dest") and t["dest"][0] not in taint and any(_mentions(a, taint) for a in t["args"]):
+                        taint.add(t["dest"][0])
+                        changed = True
+            decides = [bi for bi in body if f.blocks[bi]["t"]["k"] == "switch" and _mentions(f.blocks[bi]["t"]["discr"], taint)]
+            tests_break = any(method(t) in ("is_paragraph_break",) for h2 in with_closures(p, f) for _, t in h2.calls())
+            what = ", ".join("`%s`: %s" % (n, ty.rsplit("::", 1)[-1]) for _, n, ty in carried)
+            if decides and not tests_break:
+                ck.refuted(rule, key, f.loc(f.blocks[decides[0]]["t"].get("ln", 0)), "the loop over %s() carries %s from one unit to the next and a branch in the loop depends on it; nothing in the rule looks for a paragraph break, so what is reported for a paragraph depends on the paragraphs before it (the first unit of the document is also treated differently from the first unit of any later paragraph)" % (unit, what))
+            else:
+                ck.undecided(rule, key, f.span, "the loop over %s() carries %s from one unit to the next (%s)" % (unit, what, "a paragraph-break test exists; whether it resets the state is not decided" if tests_break else "no branch depends on it"))
+    ck.floor(rule, "unit loops in hand-written rules", n_loops, 6)
+
+
+def _mentions(o, locs):
+    if isinstance(o, dict):
+        for k in ("c", "m"):
+            if k in o and isinstance(o[k], list) and o[k] and o[k][0] in locs:
+                return True
+        if "place" in o and isinstance(o["place"], list) and o["place"] and o["place"][0] in locs:
+            return True
+        return any(_mentions(v, locs) for v in o.values())
+    if isinstance(o, list):
+        return any(_mentions(v, locs) for v in o)
+    return False
+
+
+def _live_in(f, head, body, l):
+    """is local l read on some path from the loop head (within the body) before it is overwritten?"""
+    seen, work = set(), [head]
+    while work:
+        bi = work.pop()
+        if bi in seen or bi not in body:
+            continue
+        seen.add(bi)
+        b = f.blocks[bi]
+        killed = False
+        for sx in b["s"]:
+            if sx["k"] == "assign":
+                if _mentions(sx["rv"], {l}):
+                    return True
+                if sx["lhs"] == [l]:
+                    killed = True
+                    break
+                if sx["lhs"][0] == l:
+                    return True         # partial write reads the rest
+        if killed:
+            continue
+        t = b["t"]
+        if t["k"] == "call":
+            if any(_mentions(a, {l}) for a in t["args"]):
+                return True
+            if t.get("dest") == [l]:
+                continue
+        elif t["k"] == "switch" and _mentions(t["discr"], {l}):
+            return True
+        work += f.succs(bi)
+    return False
